@@ -379,7 +379,8 @@ class JsonTable:
                     if pt is not None and pt[0] == "field":
                         ent = self.T.fm.get(("writer::json::Element", pt[2]))
                         name = ent[0] if ent else None
-                out.append((name, path, val, e))
+                if name is not None or path is not None:    # (pushes into local vectors are not records)
+                    out.append((name, path, val, e))
         return out
 
     def field(self, v, adt, name):
@@ -546,4 +547,107 @@ def r7(F, R):
     R.floor(35)
 
 
-RULES = [("R7", r7, ["all", "json"]), ("R6", r6, ["all", "json"]), ("R5", r5, ["all", "junit"]), ("R1", r1, None), ("R2", r2, None), ("R3", r3, None), ("R4", r4, None)]
+# ---- R8: JUnit — buffering and bracket bookkeeping (deep path table of JUnit::handle_event) ---------------------------------
+def r8(F, R):
+    """JUnit XML: every scenario event but Finished is buffered exactly once (the event itself), Scenario::Finished turns exactly the
+    buffered events (taken, so the buffer is empty again) into one test case — built for the event's own feature / rule / scenario — added
+    to the open suite; Feature::Started opens a suite named after the feature, Feature::Finished moves it (once) into the report; a parser
+    error becomes one suite of the report; the XML is written on run-Finished and nowhere else; other events record nothing."""
+    if not any(b.name.startswith("writer::junit::") for b in F.crate_bodies()):
+        return
+    from . import deep as D
+    from .termtypes import Typer, strip_refs
+    JU = "writer::junit::JUnit"
+    hs = [b for a, b in roles.trait_impl_methods(F, r"^writer::Writer$", "handle_event") if a == JU]
+    if len(hs) != 1:
+        raise Unverifiable(f"Writer::handle_event for JUnit: {len(hs)}")
+    co = roles.coroutine_of(F, hs[0])
+    own = lambda cb: bool(cb.impl and cb.impl.get("self_adt") == JU and not cb.impl.get("trait"))
+    tcs = [b for b in F.crate_bodies() if own(b) and re.search(r"(^|::)TestCase$", strip_refs(b.locals[0]) or "")]
+    if len(tcs) != 1:
+        raise Unverifiable(f"JUnit test-case builder role: {len(tcs)}")
+    tc = tcs[0]
+    quiet = [b for b in F.crate_bodies() if own(b) and b is not tc and not any(re.search(r"Vec::<.*>::push$|add_test(case|suite)$|write_xml$|mem::take$", callee_path(t) or "")
+                                                                                for nb in F.nested(b) for _, t in nb.calls())
+             and not any(F.callee_body(t, b.crate) is not None and own(F.callee_body(t, b.crate)) for nb in F.nested(b) for _, t in nb.calls())]
+    opq = "^(" + "|".join(re.escape(b.name) for b in [tc] + quiet) + ")$"
+    dp = D.Deep(F, co, inline_only=own, opaque=opq, max_paths=6000)
+    rows = dp.run()
+    if not rows or any(p.cut for p in rows):
+        raise Unverifiable("JUnit::handle_event: empty path table or a loop")
+    T = Typer(F, co, dp)
+
+    def shape(p):
+        d = {}
+        for a, o in p.conds:
+            if a[0] == "discr" and isinstance(o, str):
+                adt = dp.adt_of.get(a, "")
+                if adt.startswith("event::") or adt == "std::result::Result":
+                    d.setdefault(adt.rsplit("::", 1)[-1], o)
+        return d
+    seen = set()
+    for p in rows:
+        d = shape(p)
+        calls = [e for e in p.effects if e[0] == "call"]
+        pushes = [e for e in calls if re.search(r"Vec::<.*>::(push|insert|extend)$", e[1])]
+        addcase = [e for e in calls if re.search(r"(^|::)TestSuite::add_testcase$", e[1])]
+        addsuite = [e for e in calls if re.search(r"add_testsuite$", e[1])]
+        wxml = [e for e in calls if re.search(r"write_xml$|io::Write::write", e[1])]
+        tcc = [e for e in calls if e[1] == tc.name]
+        suit_writes = [e for e in p.effects if e[0] == "write" and (T.path(("ref", e[1])) or "") == "self.suit"]
+        lvl = d.get("Feature")
+        is_sc = d.get("Cucumber") == "Feature" and (lvl == "Scenario" or (lvl == "Rule" and d.get("Rule") == "Scenario"))
+        if d.get("Result") == "Err":
+            seen.add("Err")
+            ok = len(addsuite) == 1 and not addcase and not wxml and "self.report" in T.roots(addsuite[0][2][0]) and \
+                any(re.search(r"TestCase::failure$", e[1]) and any(r.startswith("event@Err") or r.startswith("err") for r in T.roots(e[2])) for e in calls)
+            R.check(ok, "junit/parser-error-suite", co, "a parser error becomes one suite holding one failure built from the error",
+                    "a parser error is not recorded as exactly one test suite holding a failure case built from that error")
+        elif d.get("Cucumber") == "Finished":
+            seen.add("Finished")
+            ok = len(wxml) == 1 and {"self.report", "self.output"} <= T.roots(wxml[0][2]) and not addcase and not addsuite and not pushes
+            R.check(ok, "junit/document-written-on-finished", co, "run-Finished writes the report into `output`, once", "on run-Finished the JUnit writer does not write its report into its output exactly once")
+        elif is_sc and (d.get("Scenario") or "") != "Finished":
+            kinds = set((d.get("Scenario") or "?").split("|"))
+            seen |= {(lvl, k) for k in kinds}
+            ok = len(pushes) == 1 and (T.path(pushes[0][2][0]) == "self.events") and any(re.search(r"@Scenario\.1$", r) for r in T.roots(pushes[0][2][1])) and \
+                not addcase and not addsuite and not wxml and not tcc
+            R.check(ok, f"junit/buffered-once/{lvl}/{'|'.join(sorted(kinds))}", co, "the scenario event itself is appended once to `events`",
+                    f"JUnit: a {lvl}-level scenario event ({sorted(kinds)}) is not appended exactly once (as it is) to the buffer the test case is built from")
+        elif is_sc:
+            seen.add((lvl, "Finished"))
+            take = [e for e in calls if re.search(r"mem::(take|replace)$|Vec::<.*>::drain$|split_off$", e[1]) and "self.events" in T.roots(e[2])]
+            ok = len(tcc) == 1 and len(addcase) == 1 and len(take) == 1 and not pushes and not wxml and not addsuite
+            why = f"{len(tcc)} test cases built, {len(addcase)} added, buffer taken {len(take)} times"
+            if ok:
+                args = tcc[0][2]
+                takeu = take[0][4]
+                from_buf = any(D.mentions(a, lambda x: x[0] == "call" and x[3] == takeu) for a in args)
+                feat = any(any(r.endswith("@Feature.0") for r in T.roots(a)) for a in args)
+                scen = any(any(re.search(r"@Scenario\.0$", r) for r in T.roots(a)) for a in args)
+                rt = [a for a in args if D.is_variant(a, "std::option::Option")]
+                rule = len(rt) == 1 and ((lvl == "Rule" and rt[0][2] == "Some" and any(r.endswith("@Rule.0") for r in T.roots(rt[0]))) or (lvl != "Rule" and rt[0][2] == "None"))
+                into = any(r.startswith("self.suit") for r in T.roots(addcase[0][2][0])) and D.mentions(addcase[0][2][1], lambda x: x[0] == "call" and x[3] == tcc[0][4])
+                ok = from_buf and feat and scen and rule and into
+                why = f"test case built from the taken buffer: {from_buf}; own feature / scenario / rule: {feat} / {scen} / {rule}; added to the open suite: {into}"
+            R.check(ok, f"junit/test-case-on-finished/{lvl}", co, "one test case from exactly the buffered events, added to the open suite",
+                    f"JUnit, {lvl}-level Scenario::Finished: {why}")
+        elif d.get("Cucumber") == "Feature" and lvl == "Started":
+            seen.add("Feature::Started")
+            ok = len(suit_writes) == 1 and D.is_variant(suit_writes[0][2], "std::option::Option", "Some") and any(r.endswith(".name") for r in T.roots(suit_writes[0][2]) | set().union(*[T.roots(e[2]) for e in calls])) \
+                and not addcase and not addsuite and not wxml and not pushes
+            R.check(ok, "junit/suite-opened", co, "Feature::Started opens a suite named after the feature", "Feature::Started does not open exactly one test suite named after the feature")
+        elif d.get("Cucumber") == "Feature" and lvl == "Finished":
+            seen.add("Feature::Finished")
+            ok = len(addsuite) == 1 and "self.report" in T.roots(addsuite[0][2][0]) and any(r.startswith("self.suit") for r in T.roots(addsuite[0][2][1])) and \
+                not any(D.is_variant(w[2], "std::option::Option", "Some") for w in suit_writes) and not addcase and not wxml and not pushes
+            R.check(ok, "junit/suite-closed-into-report", co, "Feature::Finished moves the open suite into the report, once", "Feature::Finished does not move the open suite into the report exactly once")
+        else:
+            ok = not (pushes or addcase or addsuite or wxml or tcc or suit_writes)
+            R.check(ok, "junit/nothing-else-recorded/" + "/".join(f"{k}={v}" for k, v in sorted(d.items())), co, "records nothing", f"an event that carries no result changes the JUnit report: {d}")
+    want = {"Err", "Finished", "Feature::Started", "Feature::Finished"} | {(l, k) for l in ("Rule", "Scenario") for k in ("Started", "Hook", "Background", "Step", "Log", "Finished")}
+    R.check(want <= seen, "junit/table-complete", co, f"{len(seen)} event shapes", f"rows missing from the JUnit writer's table: {sorted(map(str, want - seen))[:4]}")
+    R.floor(12)
+
+
+RULES = [("R8", r8, ["all", "junit"]), ("R7", r7, ["all", "json"]), ("R6", r6, ["all", "json"]), ("R5", r5, ["all", "junit"]), ("R1", r1, None), ("R2", r2, None), ("R3", r3, None), ("R4", r4, None)]
